@@ -140,6 +140,11 @@ class Bench:
 def try_family(rng, profile, variants, directory, instrument=("g",), max_tries=5):
     """Generate + define a family. A family that cannot be defined is returned as (None, fam, exc)."""
     fam = spec.gen_family(rng, profile)
+    want = profile.get("accept") if profile else None      # optional predicate on the generated family (rejection sampling)
+    tries = 0
+    while want is not None and not want(fam) and tries < 200:
+        fam = spec.gen_family(rng, profile)
+        tries += 1
     local = bool(profile and profile.get("p_local_classes", 0) > rng.random())
     try:
         b = Bench(fam, variants, directory, instrument, local=local)
